@@ -251,6 +251,10 @@ func (msg *MessageAuth) FromBytes(src []byte) error {
 	if l < MessageAuthBytesMin {
 		return ErrNotEnoughSourceBytes
 	}
+	if l > MessageAuthBytesMax {
+		// longer than the longest auth message (a 255-byte user name in two chunks)
+		return ErrIncorrectSourceBytes
+	}
 
 	// number of chunks: every chunk but the last is full (2+255 bytes); a source
 	// whose length is a multiple of that ends with a full chunk, not an empty one
